@@ -93,6 +93,7 @@ type c09Outcome struct {
 // c09Table evaluates the table; ok is false when the evaluator does not have the shape the evaluation
 // needs (no directive loop with a boolean accumulator, no Name() call in it).
 func c09Table(c *Ctx, r *Report, ev *ssa.Function) bool {
+	c09Prog = c
 	// the vars parameter
 	var varsP *ssa.Parameter
 	for _, p := range ev.Params {
@@ -190,6 +191,9 @@ func c09Show(v cval, old *bool) string {
 	return "a value the propagation cannot determine"
 }
 
+// c09Prog: the program the evaluator reads package-level tables from.
+var c09Prog *Ctx
+
 func c09Eval(ev *ssa.Function, loop *loopInfo, acc *ssa.Phi, varsP *ssa.Parameter, cs c09Case) ([]c09Outcome, string) {
 	start := &c09Path{blk: loop.head, env: map[ssa.Value]cval{}, tup: map[ssa.Value][]cval{}}
 	start.env[acc] = cval{k: cvOld}
@@ -265,6 +269,37 @@ func c09Eval(ev *ssa.Function, loop *loopInfo, acc *ssa.Phi, varsP *ssa.Paramete
 					case t.X == ssa.Value(varsP):
 						res = cval{k: cvVarVal}
 					default:
+						// a package-level table of constants keyed by the directive's name
+						if u, isLd := t.X.(*ssa.UnOp); isLd && u.Op == token.MUL {
+							if g, isG := u.X.(*ssa.Global); isG {
+								if tab, okT := c09Prog.globalMapLit(g); okT {
+									if k := val(t.Index); k.k == cvStr {
+										v, has := tab[k.s]
+										var cv cval
+										switch {
+										case has && v.Kind() == constant.Bool:
+											cv = cval{k: cvBool, b: constant.BoolVal(v)}
+										case has && v.Kind() == constant.String:
+											cv = cval{k: cvStr, s: constant.StringVal(v)}
+										case !has:
+											if bt, okB := t.Type().Underlying().(*types.Basic); okB && bt.Kind() == types.Bool {
+												cv = cval{k: cvBool, b: false}
+											} else if tt, okTu := t.Type().(*types.Tuple); okTu && tt.Len() == 2 {
+												if bt, okB := tt.At(0).Type().Underlying().(*types.Basic); okB && bt.Kind() == types.Bool {
+													cv = cval{k: cvBool, b: false}
+												}
+											}
+										}
+										if t.CommaOk {
+											p.tup[t] = []cval{cv, {k: cvBool, b: has}}
+										} else {
+											p.env[t] = cv
+										}
+										continue
+									}
+								}
+							}
+						}
 						if key, ok := constStr(t.Index); ok && key == "if" {
 							if cs.arg == "absent" {
 								res = cval{k: cvNil}
